@@ -1,3 +1,323 @@
 import GoagModel.Ref
+/-
+  C04 — parameter parsing rejects exactly the malformed requests, never invents values.
+
+  `Serve.parseBlock` is the model of the query / header block of the emitted `new<Op>Params`
+  (tied to the generated code by the `route -params` facet, which compares it with the real
+  `Parse()` on every generated request). `Ref.malformed` / `Ref.specValue` are the property's
+  own words: required-and-absent, scalar-supplied-more-than-once, value outside the lexical
+  space; the typed value of the supplied text; unset for an absent optional parameter.
+
+  The theorems are for an arbitrary leaf table (the Go library's float / time parsers are a
+  parameter), arbitrary parameter lists and arbitrary supplied values.
+-/
 namespace Goag.Serve
+open Goag.Spec Goag.Ref
+
+/-! ### element-wise parsing of an array parameter -/
+
+theorem mapM_some_iff (f : String → Option String) (l : List String) :
+    (∃ ds, l.mapM f = some ds) ↔ ∀ v ∈ l, (f v).isSome = true := by
+  induction l with
+  | nil => simp
+  | cons a t ih =>
+    simp only [List.mapM_cons, List.mem_cons, forall_eq_or_imp]
+    cases h : f a with
+    | none => simp
+    | some b =>
+      simp only [Option.isSome_some, true_and]
+      rw [← ih]
+      constructor
+      · rintro ⟨ds, hds⟩
+        cases ht : t.mapM f with
+        | none => simp [ht] at hds
+        | some bs => exact ⟨bs, rfl⟩
+      · rintro ⟨bs, hbs⟩
+        exact ⟨b :: bs, by simp [hbs]⟩
+
+theorem mapM_some_values (f : String → Option String) (l : List String) (ds : List String)
+    (h : l.mapM f = some ds) : ds = l.map (fun v => (f v).getD "?") := by
+  induction l generalizing ds with
+  | nil => simp at h; simp [h]
+  | cons a t ih =>
+    simp only [List.mapM_cons] at h
+    cases ha : f a with
+    | none => simp [ha] at h
+    | some b =>
+      cases ht : t.mapM f with
+      | none => simp [ha, ht] at h
+      | some bs =>
+        simp [ha, ht] at h
+        subst h
+        simp [ha, ih bs ht]
+
+/-! ### one parameter -/
+
+/-- on a non-empty value list the composed parser succeeds iff the parameter is not malformed -/
+theorem parseValues_ok_iff (leaf : LeafTable) (p : Param) (vs : List String) (hne : vs ≠ []) :
+    (∃ d, parseValues leaf p vs = .ok d) ↔ malformed leaf p vs = [] := by
+  unfold parseValues malformed
+  have hreq : (if (p.required && vs.isEmpty) = true then ["required"] else []) = ([] : List String) := by
+    cases vs with
+    | nil => exact absurd rfl hne
+    | cons a t => simp
+  rw [hreq]
+  by_cases harr : p.isArray = true
+  · simp only [harr, if_true, Bool.not_true, Bool.false_and, List.nil_append]
+    have hm := mapM_some_iff (fun v => pvalue leaf p.type v) vs
+    cases hmm : vs.mapM (fun v => pvalue leaf p.type v) with
+    | some ds =>
+      have := hm.mp ⟨ds, hmm⟩
+      simp only [Bool.false_eq_true, if_false, List.nil_append]
+      constructor
+      · intro _
+        have hany : vs.any (fun v => (pvalue leaf p.type v).isNone) = false := by
+          rw [List.any_eq_false]
+          intro v hv
+          have := this v hv
+          cases hp : pvalue leaf p.type v <;> simp_all
+        simp [hany]
+      · intro _; exact ⟨_, rfl⟩
+    | none =>
+      simp only [Bool.false_eq_true, if_false, List.nil_append]
+      constructor
+      · rintro ⟨d, hd⟩; cases hd
+      · intro hnil
+        exfalso
+        have hall : ∀ v ∈ vs, (pvalue leaf p.type v).isSome = true := by
+          intro v hv
+          by_cases hs : (pvalue leaf p.type v).isSome = true
+          · exact hs
+          · have : vs.any (fun v => (pvalue leaf p.type v).isNone) = true := by
+              rw [List.any_eq_true]
+              refine ⟨v, hv, ?_⟩
+              cases hp : pvalue leaf p.type v <;> simp_all
+            simp [this] at hnil
+        obtain ⟨ds, hds⟩ := hm.mpr hall
+        rw [hmm] at hds
+        cases hds
+  · have harr' : p.isArray = false := by cases h : p.isArray <;> simp_all
+    simp only [harr', Bool.false_eq_true, if_false, Bool.not_false, Bool.true_and, List.nil_append]
+    match vs, hne with
+    | [v], _ =>
+      cases hp : pvalue leaf p.type v with
+      | some d => simp [hp]
+      | none => simp [hp]
+    | a :: b :: t, _ =>
+      simp
+
+/-- on success the value is the typed value of the supplied text(s) -/
+theorem parseValues_value (leaf : LeafTable) (p : Param) (vs : List String) (d : String)
+    (hne : vs ≠ []) (h : parseValues leaf p vs = .ok d) : d = specValue leaf p vs := by
+  unfold parseValues at h
+  unfold specValue
+  have hemp : vs.isEmpty = false := by cases vs <;> simp_all
+  simp only [hemp, Bool.false_eq_true, if_false]
+  by_cases harr : p.isArray = true
+  · simp only [harr, if_true] at h ⊢
+    cases hmm : vs.mapM (fun v => pvalue leaf p.type v) with
+    | none => simp [hmm] at h
+    | some ds =>
+      simp [hmm] at h
+      rw [← h, mapM_some_values _ _ _ hmm]
+  · have harr' : p.isArray = false := by cases h : p.isArray <;> simp_all
+    simp only [harr', Bool.false_eq_true, if_false] at h ⊢
+    match vs, hne with
+    | [v], _ =>
+      cases hp : pvalue leaf p.type v with
+      | none => simp [hp] at h
+      | some d' => simp [hp] at h; simp [hp, h]
+    | a :: b :: t, _ => simp at h
+
+/-- a failure names the parameter and a fault that really applies to it -/
+theorem parseValues_error (leaf : LeafTable) (p : Param) (vs : List String) (e : PErr)
+    (h : parseValues leaf p vs = .error e) :
+    ∃ kind, e = .param p.loc p.name kind ∧ (vs ≠ [] → kind ∈ malformed leaf p vs) := by
+  unfold parseValues at h
+  by_cases harr : p.isArray = true
+  · simp only [harr, if_true] at h
+    cases hmm : vs.mapM (fun v => pvalue leaf p.type v) with
+    | some ds => simp [hmm] at h
+    | none =>
+      simp [hmm] at h
+      refine ⟨"lexical", h.symm, ?_⟩
+      intro _
+      unfold malformed
+      have hany : vs.any (fun v => (pvalue leaf p.type v).isNone) = true := by
+        by_cases hs : vs.any (fun v => (pvalue leaf p.type v).isNone) = true
+        · exact hs
+        · exfalso
+          have hall : ∀ v ∈ vs, (pvalue leaf p.type v).isSome = true := by
+            intro v hv
+            cases hp : pvalue leaf p.type v with
+            | some _ => rfl
+            | none =>
+              exfalso; apply hs
+              rw [List.any_eq_true]
+              exact ⟨v, hv, by simp [hp]⟩
+          obtain ⟨ds, hds⟩ := (mapM_some_iff _ _).mpr hall
+          rw [hmm] at hds; cases hds
+      simp [hany]
+  · have harr' : p.isArray = false := by cases h : p.isArray <;> simp_all
+    simp only [harr', Bool.false_eq_true, if_false] at h
+    match vs with
+    | [] =>
+      simp at h
+      exact ⟨"multiple", h.symm, fun hn => absurd rfl hn⟩
+    | [v] =>
+      cases hp : pvalue leaf p.type v with
+      | some d => simp [hp] at h
+      | none =>
+        simp [hp] at h
+        refine ⟨"lexical", h.symm, fun _ => ?_⟩
+        unfold malformed
+        simp [hp]
+    | a :: b :: t =>
+      simp at h
+      refine ⟨"multiple", h.symm, fun _ => ?_⟩
+      unfold malformed
+      simp [harr']
+
+/-! ### the whole block -/
+
+/-- **C04, "if and only if".** The block succeeds exactly when no declared parameter is
+    malformed in the request. -/
+theorem parseBlock_ok_iff (leaf : LeafTable) (values : Param → List String) (ps : List Param) :
+    (∃ ds, parseBlock leaf values ps = .ok ds) ↔ ∀ p ∈ ps, malformed leaf p (values p) = [] := by
+  induction ps with
+  | nil => simp [parseBlock]
+  | cons p ps ih =>
+    simp only [List.mem_cons, forall_eq_or_imp]
+    unfold parseBlock
+    by_cases hemp : (values p).isEmpty = true
+    · have hnil : values p = [] := by cases h : values p <;> simp_all
+      simp only [hemp, if_true]
+      by_cases hreq : p.required = true
+      · simp only [hreq, if_true]
+        constructor
+        · rintro ⟨ds, hds⟩; cases hds
+        · rintro ⟨hm, _⟩
+          unfold malformed at hm
+          simp [hreq, hnil] at hm
+      · have hreq' : p.required = false := by cases h : p.required <;> simp_all
+        have hmal : malformed leaf p (values p) = [] := by
+          unfold malformed; simp [hreq', hnil]
+        simp only [hreq', Bool.false_eq_true, if_false, hmal, true_and]
+        rw [← ih]
+        constructor
+        · rintro ⟨ds, hds⟩
+          cases hb : parseBlock leaf values ps with
+          | error e => simp [hb] at hds
+          | ok ds' => exact ⟨ds', rfl⟩
+        · rintro ⟨ds', hb⟩
+          exact ⟨"-" :: ds', by simp [hb]⟩
+    · have hemp' : (values p).isEmpty = false := by cases h : (values p).isEmpty <;> simp_all
+      have hne : values p ≠ [] := by intro h; simp [h] at hemp'
+      simp only [hemp', Bool.false_eq_true, if_false]
+      rw [← parseValues_ok_iff leaf p (values p) hne, ← ih]
+      constructor
+      · rintro ⟨ds, hds⟩
+        cases hv : parseValues leaf p (values p) with
+        | error e => simp [hv] at hds
+        | ok d =>
+          cases hb : parseBlock leaf values ps with
+          | error e => simp [hv, hb] at hds
+          | ok ds' => exact ⟨⟨d, rfl⟩, ⟨ds', rfl⟩⟩
+      · rintro ⟨⟨d, hv⟩, ⟨ds', hb⟩⟩
+        exact ⟨d :: ds', by simp [hv, hb]⟩
+
+/-- **C04, "never invents values".** On success every field holds the typed value of the
+    supplied text and every absent optional parameter is unset. -/
+theorem parseBlock_values (leaf : LeafTable) (values : Param → List String) (ps : List Param)
+    (ds : List String) (h : parseBlock leaf values ps = .ok ds) :
+    ds = ps.map (fun p => specValue leaf p (values p)) := by
+  induction ps generalizing ds with
+  | nil => simp [parseBlock] at h; simp [h]
+  | cons p ps ih =>
+    unfold parseBlock at h
+    by_cases hemp : (values p).isEmpty = true
+    · have hnil : values p = [] := by cases h : values p <;> simp_all
+      simp only [hemp, if_true] at h
+      by_cases hreq : p.required = true
+      · simp [hreq] at h
+      · have hreq' : p.required = false := by cases h : p.required <;> simp_all
+        simp only [hreq', Bool.false_eq_true, if_false] at h
+        cases hb : parseBlock leaf values ps with
+        | error e => simp [hb] at h
+        | ok ds' =>
+          simp [hb] at h
+          subst h
+          simp [ih ds' hb, specValue, hnil]
+    · have hemp' : (values p).isEmpty = false := by cases h : (values p).isEmpty <;> simp_all
+      have hne : values p ≠ [] := by intro h; simp [h] at hemp'
+      simp only [hemp', Bool.false_eq_true, if_false] at h
+      cases hv : parseValues leaf p (values p) with
+      | error e => simp [hv] at h
+      | ok d =>
+        cases hb : parseBlock leaf values ps with
+        | error e => simp [hv, hb] at h
+        | ok ds' =>
+          simp [hv, hb] at h
+          subst h
+          simp [ih ds' hb, parseValues_value leaf p (values p) d hne hv]
+
+/-- **C04, "the error identifies the parameter".** A failure names a declared parameter, with a
+    fault kind that really applies to it. -/
+theorem parseBlock_error (leaf : LeafTable) (values : Param → List String) (ps : List Param)
+    (e : PErr) (h : parseBlock leaf values ps = .error e) :
+    ∃ p ∈ ps, ∃ kind, e = .param p.loc p.name kind ∧ kind ∈ malformed leaf p (values p) := by
+  induction ps with
+  | nil => simp [parseBlock] at h
+  | cons p ps ih =>
+    unfold parseBlock at h
+    by_cases hemp : (values p).isEmpty = true
+    · have hnil : values p = [] := by cases h : values p <;> simp_all
+      simp only [hemp, if_true] at h
+      by_cases hreq : p.required = true
+      · simp [hreq] at h
+        exact ⟨p, List.mem_cons_self, "required", h.symm, by unfold malformed; simp [hreq, hnil]⟩
+      · have hreq' : p.required = false := by cases h : p.required <;> simp_all
+        simp only [hreq', Bool.false_eq_true, if_false] at h
+        cases hb : parseBlock leaf values ps with
+        | ok ds' => simp [hb] at h
+        | error e' =>
+          simp [hb] at h
+          subst h
+          obtain ⟨q, hq, k, hk⟩ := ih hb
+          exact ⟨q, List.mem_cons_of_mem _ hq, k, hk⟩
+    · have hemp' : (values p).isEmpty = false := by cases h : (values p).isEmpty <;> simp_all
+      have hne : values p ≠ [] := by intro h; simp [h] at hemp'
+      simp only [hemp', Bool.false_eq_true, if_false] at h
+      cases hv : parseValues leaf p (values p) with
+      | error e' =>
+        simp [hv] at h
+        subst h
+        obtain ⟨k, hk, hin⟩ := parseValues_error leaf p (values p) e' hv
+        exact ⟨p, List.mem_cons_self, k, hk, hin hne⟩
+      | ok d =>
+        cases hb : parseBlock leaf values ps with
+        | ok ds' => simp [hv, hb] at h
+        | error e' =>
+          simp [hv, hb] at h
+          subst h
+          obtain ⟨q, hq, k, hk⟩ := ih hb
+          exact ⟨q, List.mem_cons_of_mem _ hq, k, hk⟩
+
+/-- outcome of the block as plain strings (for the concrete examples below) -/
+def blockOutcome (r : Except PErr (List String)) : List String :=
+  match r with
+  | .ok ds => "ok" :: ds
+  | .error (.param loc name kind) => ["err", loc, name, kind]
+  | .error .wrongPath => ["wrong-path"]
+
+/-- Non-vacuity: a request with one good and one bad parameter. -/
+example :
+    let ps : List Param := [{ loc := "query", name := "n", required := true, type := .int },
+                            { loc := "query", name := "b", required := false, type := .bool }]
+    blockOutcome (parseBlock [] (fun p => if p.name == "n" then ["42"] else []) ps) = ["ok", "i:42", "-"] ∧
+    blockOutcome (parseBlock [] (fun p => if p.name == "n" then ["42", "43"] else []) ps) = ["err", "query", "n", "multiple"] ∧
+    blockOutcome (parseBlock [] (fun p => if p.name == "n" then ["4x"] else []) ps) = ["err", "query", "n", "lexical"] ∧
+    blockOutcome (parseBlock [] (fun _ => []) ps) = ["err", "query", "n", "required"] := by
+  refine ⟨?_, ?_, ?_, ?_⟩ <;> decide
+
 end Goag.Serve
